@@ -396,6 +396,8 @@ def gen_ops(rng, tr, n_ops):
     def sampler_op():
         ms = rng.choice([None, 0, -3, 1, 10]) if rng.random() < 0.12 else rng.choice([10, 100, 1000, 5000, 100000])
         st["sampler"] = st["sampler"] or (ms is not None and ms > 0)
+        if ms is not None and ms > 0:
+            st["ms"] = ms
         return {"op": "sampler", "ms": ms}
 
     def iters_op():
@@ -438,6 +440,12 @@ def gen_ops(rng, tr, n_ops):
         st["njobs"] += 1
         return {"op": "job", "method": rng.choice(METHODS)}
 
+    def gen_limit():
+        # a sample limit; often right at the boundary of the sampler's max_shots_per_call (the clamp's edge)
+        if st.get("ms") and rng.random() < 0.3:
+            return st["ms"] + rng.choice([-1, 0, 1, 1])
+        return gen_int_val(rng)
+
     def execute_op():
         cand = [j for j in range(st["njobs"]) if j not in st["used"] and j not in st["stale"]]
         if st["used"] and rng.random() < 0.1:
@@ -449,11 +457,11 @@ def gen_ops(rng, tr, n_ops):
         st["used"].add(j)
         rr = rng.random()
         if rr < 0.6:
-            args = [gen_int_val(rng)]
+            args = [gen_limit()]
         elif rr < 0.76:
             args = []
         elif rr < 0.88:
-            args = [gen_int_val(rng), gen_int_val(rng)]
+            args = [gen_limit(), gen_int_val(rng)]
         elif rr < 0.93:
             args = [gen_int_val(rng), gen_int_val(rng), 7]
         else:
@@ -461,7 +469,7 @@ def gen_ops(rng, tr, n_ops):
         kw = []
         rr = rng.random()
         if (not args and rr < 0.5) or rr < 0.06:
-            kw.append(["max_samples", rng.choice([gen_int_val(rng), gen_int_val(rng), gen_int_val(rng), None])])
+            kw.append(["max_samples", rng.choice([gen_limit(), gen_limit(), gen_int_val(rng), None])])
         elif rr < 0.10:
             kw.append(["max_shots", gen_int_val(rng)])
         elif rr < 0.14:
@@ -541,6 +549,7 @@ class Session:
         self.sampler = None
         self.jobs = []             # [job object, sent_ok]
         self.n_sent = 0
+        self.epoch = 0             # bumped by every call that mutates processor._parameters or the iterator list
         self.lean_ops = []
         self.outs = []
         self.states = []
@@ -636,6 +645,23 @@ class Session:
             self.rp = pcvl.RemoteProcessor.from_local_processor(p, rpc_handler=self.h)
             return {"done": True}
         self.run_op(lop, do)
+        if self.rp is not None:
+            # direct oracle: the conversion preserves what the user configured on the local processor
+            rp = self.rp
+            try:
+                got = {"m": rp.m, "circuit_size": rp.circuit_size, "heralds": sorted(rp.heralds.values()),
+                       "filter": rp.experiment.min_photons_filter, "noise": rp.noise,
+                       "input": None if rp.input_state is None else
+                       [int(x) for x in rp.remove_heralded_modes(rp.input_state)]}
+                want = {"m": p.m, "circuit_size": p.circuit_size, "heralds": sorted(p.heralds.values()),
+                        "filter": p.experiment.min_photons_filter, "noise": p.noise,
+                        "input": None if inp is None else [int(x) for x in p.remove_heralded_modes(inp)]}
+                for key in want:
+                    if not (got[key] == want[key]):
+                        self.fail("from-local-" + key, f"from_local_processor changed {key}: local processor "
+                                                       f"{want[key]!r}, remote processor {got[key]!r}")
+            except Exception as e:
+                self.fail("from-local-inspect", f"converted processor cannot be inspected: {type(e).__name__}: {e}")
         if self.rp is None and "err" in self.outs[-1]:
             # conversion of a processor built with the public API failed: direct oracle
             sig = "from-local-raises"
@@ -723,6 +749,10 @@ class Session:
         rp = self.rp
         k = op["op"]
         it = self.intent
+        if k in ("filter", "param", "clear_params", "add_iters", "clear_iters"):
+            # a created job aliases processor._parameters and the sampler's iterator list (not modelled): jobs
+            # created before such a call are never executed (decided here, on what actually ran, not by the generator)
+            self.epoch += 1
         if k == "with_input":
             def do():
                 rp.with_input(pcvl.BasicState(op["s"]))
@@ -856,7 +886,8 @@ class Session:
 
             def do():
                 job = getattr(self.sampler, op["method"])
-                self.jobs.append([job, False, op["method"], list(it["sampler_its"]), it["max_shots"], self.snapshot()])
+                self.jobs.append([job, False, op["method"], list(it["sampler_its"]), it["max_shots"], self.snapshot(),
+                                  self.epoch])
                 return {"done": True}
             self.run_op({"op": k, "method": op["method"]}, do)
         elif k == "execute":
@@ -864,6 +895,8 @@ class Session:
             if op["job"] >= len(self.jobs) or self.jobs[op["job"]][1]:
                 return False
             rec = self.jobs[op["job"]]
+            if rec[6] != self.epoch:
+                return False
             kw = {a: b for a, b in op["kw"]}
 
             def do():
@@ -874,6 +907,7 @@ class Session:
                 sent = deserialize(self.h.log[-1])
                 self.flags.add("execute-sent")
                 self.check_payload(sent["payload"], None, set(), False, False, rec)
+                self.check_limit(sent["payload"], op["args"], kw)
                 if sent.get("job_name") != rec[2]:
                     self.oracle_failures.append(("job-name", f"job_name {sent.get('job_name')} != {rec[2]}"))
                 return {"sent": {"job_name": sent.get("job_name"), "payload": sent["payload"]}}
@@ -1029,6 +1063,22 @@ class Session:
                 if (pf["max_photons"] is not None and nph > pf["max_photons"]) or \
                         (pf["min_photons"] is not None and nph < pf["min_photons"]):
                     self.fail("constraints-photons", f"payload produced for {nph} photons, constraints {pf}")
+
+    def check_limit(self, pl, args, kw):
+        """The sample limit the user asked for (first positional int, else max_samples=) is what is sent: as the
+        command's max_samples (lowered to max_shots at most) or as the result conversion's max_samples."""
+        asked = args[0] if args else kw.get("max_samples")
+        if not (isinstance(asked, int) and not isinstance(asked, bool)):
+            return
+        shots = pl.get("max_shots")
+        ctx = pl.get("job_context") or {}
+        ctx_ms = (ctx.get("mapping_delta_parameters") or {}).get("max_samples") if isinstance(ctx, dict) else None
+        ok = ctx_ms == asked
+        if isinstance(shots, int) and pl.get("max_samples") == min(asked, shots):
+            ok = True
+        if not ok:
+            self.fail("limit-not-sent", f"execute_async asked for {asked} samples; payload has max_samples="
+                                        f"{pl.get('max_samples')!r}, max_shots={shots!r}, job_context={ctx!r}")
 
     def iter_equal(self, got, want):
         from perceval import BasicState, NoiseModel
@@ -1270,6 +1320,8 @@ def account(chk, scen, ses, rep):
                 asked = arg if isinstance(arg, int) else kwm
                 if isinstance(asked, int) and isinstance(pl.get("max_samples"), int) and pl["max_samples"] < asked:
                     chk.branch("clamp-lowered")
+                    if asked == pl.get("max_shots", 0) + 1:
+                        chk.branch("clamp-lowered-by-one")
                 if pl.get("max_samples") == pl.get("max_shots") and "max_samples" in pl and asked is None:
                     chk.branch("clamp-lowered")
     nontrivial = n_payload > 0 and s0 is not None
@@ -1350,14 +1402,16 @@ def run(chk: core.Check):
         "real objects (matrix equality at 1e-9, post-selection evaluated on all states with <=2 photons per mode)",
         "wiring of a composed processor (permutation of herald modes) is taken from C10; here only the relabelling "
         "reported by the model is checked against the matrix actually sent",
-        "no processor mutation between job creation and execute_async (the payload aliases processor._parameters and "
-        "the sampler's iterator list; not modelled)",
+        "no change of processor._parameters (filter, set_parameter, clear_parameters) or of the sampler's iterator list "
+        "between job creation and execute_async: the payload aliases both; the harness drops such executions on what "
+        "actually ran (not modelled)",
         "a job is executed at most once after a successful send (double execute_async is C17's finding)",
         "add_herald only on existing modes, at least one mode of interest kept; BasicState inputs only",
     ]
     chk.required_branches = ["convert", "convert-heralds", "convert-heralds-inside", "convert-heralds-input",
                              "remote-built", "remote-herald", "payload", "execute-sent", "filter-zero",
                              "filter-unset-rejected", "prepare-rejected-constraints", "clamp-lowered",
+                             "clamp-lowered-by-one",
                              "handle-params-rejected", "execute-typeerror", "iterator-sent", "iteration-rejected",
                              "primitive-converted", "primitive-none-or-constraints", "mapping-delta", "kw-collision",
                              "noise-after-convert", "input-after-convert", "input-before-convert"]
